@@ -978,7 +978,7 @@ func c17Computed(c *core.Check) {
 // `angle != 0`, the Python truthiness of the original, rejects rotate(0deg) and with it the whole declaration).
 func c17ZeroAngles(c *core.Check) {
 	p := c.Prog
-	r := c.Rule("R7", "every angle is accepted: in the validator of transform functions no condition compares the value returned by getAngle with a constant — acceptance depends only on whether the argument is an angle (rotate(0deg), skewX(0deg) are valid; refusing them drops the whole transform declaration)", 1)
+	r := c.Rule("R7", "every angle is accepted: in the validator of transform functions no condition compares the value returned by getAngle with a constant — acceptance depends only on whether the argument is an angle (rotate(0deg), skewX(0deg) are valid; refusing them drops the whole transform declaration)", 3)
 	ga := p.Fn("css/validation", "getAngle")
 	if ga == nil {
 		r.Anchor("css/validation.getAngle")
@@ -1160,6 +1160,6 @@ func c17TransformSeparators(c *core.Check) {
 // c17DeadArithmetic (R11): in the packages that build transforms (svg, matrix, html/document) no arithmetic result is
 // dropped: the rotation angle of an SVG marker used to be computed and never given to the transform.
 func c17DeadArithmetic(c *core.Check) {
-	r := c.Rule("R11", "no arithmetic result of svg, matrix and html/document is unused (go/ssa keeps dead values: a sum, difference, product or quotient without referrer is spelled in the source and dropped) — the angle of a marker must reach its transform", 100)
+	r := c.Rule("R11", "no arithmetic result of svg, matrix and html/document is unused (go/ssa keeps dead values: a sum, difference, product or quotient without referrer is spelled in the source and dropped) — the angle of a marker must reach its transform", 124)
 	deadArithmeticRule(c, r, nil, "svg", "matrix", "html/document")
 }
